@@ -8,8 +8,8 @@ CONSTANTS
   Ambig = {"minus3"}
   Titled = FALSE
   Buf = 1
-  Fixes = {"D1", "D14", "D2", "D18", "D19", "D20", "D21", "D23"}
-  ColorOnly = FALSE
+  Fixes = {"D1", "D14", "D2", "D18", "D19", "D20", "D21"}
+  ColorOnly = TRUE
   ReplayLen = 8
-INVARIANTS RowsOnceInOrder Lag PrefixStable LanguageByName Replay
+INVARIANTS LineForLine
 CHECK_DEADLOCK FALSE
